@@ -461,15 +461,16 @@ Proof. intros Hk. unfold op_small. do 17 (destruct k as [|k]; [try lia; try refl
 
 Section MultisigFamily.
   Variables (t : tx) (idx : nat) (i : txin) (v : N) (l : list bit).
-  Variables (d0 : bit) (dummy : bytes) (sigs keys : list bytes) (vf : bool).
+  Variables (dummy : bytes) (sigs keys : list bytes) (vf : bool).
   Let u := unlocking i.
   Let m := length sigs.
   Let n := length keys.
   Hypothesis Hin : nth_error (inputs t) idx = Some i.
   Hypothesis Hlock : locking i = Some l.
   Hypothesis Hsat : satoshis i = Some v.
-  Hypothesis Hun : unlocking i = d0 :: map BPush sigs.
-  Hypothesis Hd0 : is_simple d0 = true /\ is_sep d0 = false /\ forall s, stack_exec [d0] s = Ok (s ++ [dummy]).
+  (* push-only unlocking script that leaves  dummy, sig_1 .. sig_m  on the stack *)
+  Hypothesis Hupush : forallb (fun b => is_simple b && negb (is_sep b)) (unlocking i) = true.
+  Hypothesis Hustack : forall s, stack_exec (unlocking i) s = Ok (s ++ dummy :: sigs).
   Hypothesis Hu : straight u = true.
   Hypothesis Hl : straight l = true.
   Hypothesis Hmn : 1 <= m <= n /\ n <= 16.
@@ -479,10 +480,7 @@ Section MultisigFamily.
   Let Vspec (sg pk : bytes) : Prop := spec_sig_valid (view_tx t) idx (script_code (flatten l)) v sg pk = true.
 
   Lemma ms_u_simple : forallb (fun b => is_simple b && negb (is_sep b)) u = true.
-  Proof.
-    unfold u. rewrite Hun. cbn [forallb]. destruct Hd0 as (H1 & H2 & _). rewrite H1, H2. cbn [negb andb].
-    clear. induction sigs as [|s r IH]; [reflexivity|]. cbn [map forallb]. exact IH.
-  Qed.
+  Proof. exact Hupush. Qed.
   Lemma ms_u_pre : forallb pre_bit u = true.
   Proof. exact (simple_pre u ms_u_simple). Qed.
 
@@ -490,9 +488,7 @@ Section MultisigFamily.
     stack_exec (u ++ op_small m :: map BPush keys ++ [op_small n]) [] =
       Ok ([] ++ [dummy] ++ sigs ++ [small_num m] ++ keys ++ [small_num n]).
   Proof.
-    unfold u. rewrite Hun. change (d0 :: map BPush sigs) with ([d0] ++ map BPush sigs).
-    rewrite <- !app_assoc. rewrite stack_exec_app. destruct Hd0 as (_ & _ & Hd). rewrite Hd. cbn [bind app].
-    rewrite stack_exec_app, stack_exec_pushes. cbn [bind].
+    rewrite stack_exec_app. unfold u. rewrite Hustack. cbn [bind app].
     change (op_small m :: map BPush keys ++ [op_small n]) with ([op_small m] ++ map BPush keys ++ [op_small n]).
     rewrite stack_exec_app. cbn [stack_exec]. rewrite sf_small by lia. rewrite push_number_small by lia. cbn [bind].
     rewrite stack_exec_app, stack_exec_pushes. cbn [bind stack_exec]. rewrite sf_small by lia.
@@ -567,3 +563,23 @@ Section MultisigFamily.
       + intros Hdec Hok. exfalso. pose proof (Hcompl Hdec Hok) as E. rewrite Hs in E. discriminate.
   Qed.
 End MultisigFamily.
+
+(* ------------------------------------------------------------------ *)
+(* from_transaction + run never panics and always ends: the two hypotheses of property C16 hold for this
+   transaction side, whatever the transaction, the index and the scripts *)
+Theorem spend_total t idx :
+  spend_ref t idx = Err \/ exists j, spend_ref t idx = Ok (RunOk j) \/ spend_ref t idx = Ok (RunErr j).
+Proof.
+  unfold spend, from_transaction. destruct (nth_error (inputs t) idx) as [i|]; [|left; reflexivity].
+  unfold finalised_script.
+  assert (Hfb : forall bs, from_bytes bs <> Panic) by exact from_bytes_no_panic.
+  destruct (locking i) as [l|].
+  - specialize (Hfb (to_bytes (unlocking i) ++ to_bytes l)).
+    destruct (from_bytes (to_bytes (unlocking i) ++ to_bytes l)) as [bits| |]; cbn [bind]; [|left; reflexivity|contradiction].
+    right. unfold run_tx.
+    destruct (run_total txctx sig_preimage (sig_verify ref_prims) sig_preimage_total sig_verify_total
+                (from_script_bits txctx bits (Some (mk_ctx t idx)))) as (j & [Hj|Hj]); exists j; rewrite Hj; tauto.
+  - cbn [bind]. right. unfold run_tx.
+    destruct (run_total txctx sig_preimage (sig_verify ref_prims) sig_preimage_total sig_verify_total
+                (from_script_bits txctx (unlocking i) (Some (mk_ctx t idx)))) as (j & [Hj|Hj]); exists j; rewrite Hj; tauto.
+Qed.
